@@ -1,7 +1,345 @@
-//! C10 — not implemented yet (stub).
-use crate::engine::Args;
+//! C10 — worker hand-over and soft stop lose no listener and cut no request (DESIGN §4 C10).
+//!
+//! Part (a), in-process: the fd hand-off codec (`ScmSocket::send_listeners` /
+//! `receive_listeners`) round-trips every listener set up to the documented fd limit, keeping
+//! address/kind/order and the identity of every open file, without leaking descriptors.
+//! Part (b), wire lab (hand-over under traffic), lives in `c10_lab` once the lab exists.
 
-pub fn run(_args: &Args) -> i32 {
-    println!("INCONCLUSIVE: C10 has no check yet");
-    2
+use std::{
+    net::SocketAddr,
+    os::fd::{AsRawFd, IntoRawFd, RawFd},
+    os::unix::net::UnixStream,
+};
+
+use proptest::prelude::*;
+use serde::{Deserialize, Serialize};
+use sozu_command_lib::scm_socket::{Listeners, ScmSocket};
+
+use crate::engine::{self, Args, CaseReport, CheckResult, Evidence, pick_idx};
+
+#[derive(Clone, Debug, Serialize, Deserialize)]
+pub struct Case {
+    /// (kind 0 http / 1 tls / 2 tcp / 3 udp, address shape selector, port)
+    pub entries: Vec<(u8, u32, u16)>,
+    pub send_blocking: bool,
+    pub recv_blocking: bool,
+    /// how many of the entries (from the front) use real bound sockets at their real address
+    pub real: u8,
+    /// count process fds before/after (only meaningful in the single-threaded sub-check)
+    #[serde(default)]
+    pub count_fds: bool,
+}
+
+/// textual shapes of every length class: short/long IPv4, short/long/longest IPv6, scoped link-local
+fn address(sel: u32, port: u16) -> SocketAddr {
+    const SHAPES: &[&str] = &[
+        "1.2.3.4",
+        "127.0.0.1",
+        "255.255.255.255",
+        "::1",
+        "::",
+        "2001:db8::5",
+        "fe80::1234:5678:9abc:def0",
+        "ffff:ffff:ffff:ffff:ffff:ffff:ffff:ffff",
+        "2001:0db8:85a3:1111:2222:8a2e:0370:7334",
+        "abcd:ef01:2345:6789:abcd:ef01:2345:6789",
+    ];
+    let ip: std::net::IpAddr = SHAPES[pick_idx(sel, SHAPES.len())].parse().unwrap();
+    SocketAddr::new(ip, port)
+}
+
+fn entry() -> impl Strategy<Value = (u8, u32, u16)> {
+    (0u8..4, any::<u32>(), prop_oneof![Just(1u16), Just(80u16), Just(65535u16), any::<u16>()])
+}
+
+pub fn strategy() -> impl Strategy<Value = Case> {
+    strategy_with(false)
+}
+
+/// `over_limit`: also generate sets above the documented limit of 200 (only in the single-threaded
+/// sub-check, which can find and close the descriptors an over-limit hand-off strands)
+pub fn strategy_with(over_limit: bool) -> impl Strategy<Value = Case> {
+    let n = prop_oneof![
+        4 => 0usize..12,
+        3 => 12usize..100,
+        3 => 100usize..=200,
+        1 => if over_limit { 201usize..260 } else { 195usize..201 },
+    ];
+    n.prop_flat_map(|n| {
+        (
+            prop::collection::vec(entry(), n..=n),
+            any::<bool>(),
+            any::<bool>(),
+            0u8..6,
+            // bias toward the longest textual addresses (the manifest size boundary)
+            prop::bool::weighted(0.35),
+        )
+            .prop_map(|(mut entries, send_blocking, recv_blocking, real, long)| {
+                if long {
+                    for e in entries.iter_mut() {
+                        e.1 = u32::MAX / 10 * (7 + (e.1 % 3)); // shapes 7..9: longest IPv6
+                        e.2 = 65535 - (e.2 % 1000);
+                    }
+                }
+                Case { entries, send_blocking, recv_blocking, real, count_fds: false }
+            })
+    })
+}
+
+fn open_fds() -> Vec<RawFd> {
+    let mut v: Vec<RawFd> = std::fs::read_dir("/proc/self/fd")
+        .map(|d| d.filter_map(|e| e.ok()?.file_name().to_str()?.parse().ok()).collect())
+        .unwrap_or_default();
+    v.sort();
+    v
+}
+
+fn ino(fd: RawFd) -> Option<(u64, u64)> {
+    let mut st: libc::stat = unsafe { std::mem::zeroed() };
+    if unsafe { libc::fstat(fd, &mut st) } == 0 {
+        Some((st.st_dev as u64, st.st_ino as u64))
+    } else {
+        None
+    }
+}
+
+pub fn check(case: &Case) -> CheckResult {
+    let mut rep = CaseReport::default();
+    let fds_before = if case.count_fds { open_fds() } else { vec![] };
+    let result = run_case(case, &mut rep);
+    if case.count_fds {
+        // (the directory handle used for the listing itself is already closed here)
+        let after = open_fds();
+        let stranded: Vec<RawFd> = after.iter().copied().filter(|fd| !fds_before.contains(fd)).collect();
+        for fd in &stranded {
+            unsafe { libc::close(*fd) };
+        }
+        if !stranded.is_empty() && case.entries.len() <= 200 {
+            fail!(
+                "C10/fd-leak",
+                "the hand-off of {} listeners (within the documented limit) left {} descriptors open after everything the harness owns was closed (hand-off result: {})",
+                case.entries.len(),
+                stranded.len(),
+                if result.is_ok() { "ok".to_string() } else { format!("{:?}", result.as_ref().err().map(|f| &f.signature)) }
+            );
+        }
+    }
+    result?;
+    Ok(rep)
+}
+
+fn run_case(case: &Case, rep: &mut CaseReport) -> Result<(), engine::Failure> {
+    // descriptors the harness owns (closed on drop)
+    let tcp4 = std::net::TcpListener::bind("127.0.0.1:0").expect("bind tcp4");
+    let tcp6 = std::net::TcpListener::bind("[::1]:0").ok();
+    let udp4 = std::net::UdpSocket::bind("127.0.0.1:0").expect("bind udp4");
+    let mut owned: Vec<RawFd> = vec![]; // dups to close at the end
+    let mut real_listeners: Vec<std::net::TcpListener> = vec![];
+
+    let mut listeners = Listeners::default();
+    let mut sent: Vec<(u8, SocketAddr, RawFd)> = vec![];
+    for (i, (kind, sel, port)) in case.entries.iter().enumerate() {
+        let (addr, fd) = if i < case.real as usize && *kind != 3 {
+            // a real bound socket advertised at its real address
+            let l = if sel % 2 == 0 || tcp6.is_none() {
+                std::net::TcpListener::bind("127.0.0.1:0").expect("bind")
+            } else {
+                std::net::TcpListener::bind("[::1]:0").expect("bind")
+            };
+            let a = l.local_addr().unwrap();
+            let fd = l.as_raw_fd();
+            real_listeners.push(l);
+            (a, fd)
+        } else {
+            let src = match kind {
+                3 => udp4.as_raw_fd(),
+                _ if sel % 2 == 1 && tcp6.is_some() => tcp6.as_ref().unwrap().as_raw_fd(),
+                _ => tcp4.as_raw_fd(),
+            };
+            let d = unsafe { libc::dup(src) };
+            if d < 0 {
+                panic!("harness: dup failed");
+            }
+            owned.push(d);
+            (address(*sel, *port), d)
+        };
+        match kind {
+            0 => listeners.http.push((addr, fd)),
+            1 => listeners.tls.push((addr, fd)),
+            2 => listeners.tcp.push((addr, fd)),
+            _ => listeners.udp.push((addr, fd)),
+        }
+        sent.push((*kind, addr, fd));
+    }
+    let close_owned = |owned: &[RawFd]| {
+        for fd in owned {
+            unsafe { libc::close(*fd) };
+        }
+    };
+
+    let (a, b) = UnixStream::pair().expect("socketpair");
+    let (afd, bfd) = (a.into_raw_fd(), b.into_raw_fd());
+    let close_pair = || unsafe {
+        libc::close(afd);
+        libc::close(bfd);
+    };
+    let mut tx = ScmSocket::new(afd).expect("scm tx");
+    let mut rx = ScmSocket::new(bfd).expect("scm rx");
+    tx.set_blocking(case.send_blocking).expect("set_blocking");
+    rx.set_blocking(case.recv_blocking).expect("set_blocking");
+
+    let total = case.entries.len();
+    let manifest_bytes: usize = sent.iter().map(|(_, a, _)| a.to_string().len() + 2).sum::<usize>() + 4;
+    let within_limit = total <= 200;
+
+    let send_res = tx.send_listeners(&listeners);
+    let recv_res = match &send_res {
+        Ok(()) => Some(rx.receive_listeners()),
+        Err(_) => None,
+    };
+
+    let outcome: Result<(), engine::Failure> = (|| {
+        if !within_limit {
+            // beyond the documented limit: a clean error on either side (never a panic, never a
+            // truncated listener set presented as complete)
+            match (&send_res, &recv_res) {
+                (Err(_), _) => Ok(()),
+                (Ok(()), Some(Err(_))) => Ok(()),
+                (Ok(()), Some(Ok(got))) => {
+                    let n = got.http.len() + got.tls.len() + got.tcp.len() + got.udp.len();
+                    for (_, fd) in got.http.iter().chain(&got.tls).chain(&got.tcp).chain(&got.udp) {
+                        unsafe { libc::close(*fd) };
+                    }
+                    Err(engine::Failure::new(
+                        "C10/over-limit-accepted",
+                        format!("{total} listeners (> 200) were handed over and {n} came out without an error"),
+                    ))
+                }
+                _ => Ok(()),
+            }
+        } else {
+            if let Err(e) = &send_res {
+                fail!("C10/send-failed", "send_listeners failed for {total} listeners ({manifest_bytes} manifest bytes): {e}");
+            }
+            let got = match recv_res.unwrap() {
+                Ok(g) => g,
+                Err(e) => fail!(
+                    "C10/receive-failed",
+                    "receive_listeners failed for {total} listeners within the documented limit of 200 (manifest {manifest_bytes} bytes): {e}"
+                ),
+            };
+            let lists = [(0u8, &got.http), (1, &got.tls), (2, &got.tcp), (3, &got.udp)];
+            let mut it = sent.iter();
+            let mut result = Ok(());
+            let mut received_fds = vec![];
+            'outer: for (kind, list) in lists {
+                let want: Vec<&(u8, SocketAddr, RawFd)> = sent.iter().filter(|s| s.0 == kind).collect();
+                if list.len() != want.len() {
+                    result = Err(engine::Failure::new(
+                        "C10/listener-count",
+                        format!("kind {kind}: sent {} listeners, received {}", want.len(), list.len()),
+                    ));
+                    received_fds.extend(list.iter().map(|x| x.1));
+                    continue;
+                }
+                for ((addr, fd), w) in list.iter().zip(want) {
+                    received_fds.push(*fd);
+                    if *addr != w.1 {
+                        result = Err(engine::Failure::new(
+                            "C10/listener-address",
+                            format!("kind {kind}: sent address {} came out as {addr}", w.1),
+                        ));
+                        continue 'outer;
+                    }
+                    if ino(*fd) != ino(w.2) || ino(*fd).is_none() {
+                        result = Err(engine::Failure::new(
+                            "C10/listener-fd-identity",
+                            format!("kind {kind} {addr}: received descriptor {fd} is not the open file that was sent ({:?} vs {:?})", ino(*fd), ino(w.2)),
+                        ));
+                        continue 'outer;
+                    }
+                }
+            }
+            let _ = it.next();
+            // real sockets: the received descriptor is bound to the advertised address
+            for (i, (kind, addr, _)) in sent.iter().enumerate() {
+                if i < case.real as usize && *kind != 3 && result.is_ok() {
+                    let list = match kind {
+                        0 => &got.http,
+                        1 => &got.tls,
+                        _ => &got.tcp,
+                    };
+                    if let Some((_, fd)) = list.iter().find(|(a, _)| a == addr) {
+                        let mut ss: libc::sockaddr_storage = unsafe { std::mem::zeroed() };
+                        let mut len = std::mem::size_of::<libc::sockaddr_storage>() as libc::socklen_t;
+                        let rc = unsafe { libc::getsockname(*fd, &mut ss as *mut _ as *mut libc::sockaddr, &mut len) };
+                        let port = if ss.ss_family as i32 == libc::AF_INET {
+                            u16::from_be(unsafe { (*(&ss as *const _ as *const libc::sockaddr_in)).sin_port })
+                        } else {
+                            u16::from_be(unsafe { (*(&ss as *const _ as *const libc::sockaddr_in6)).sin6_port })
+                        };
+                        if rc != 0 || port != addr.port() {
+                            result = Err(engine::Failure::new(
+                                "C10/listener-not-bound-to-its-address",
+                                format!("received descriptor for {addr} is bound to port {port}"),
+                            ));
+                        }
+                    }
+                }
+            }
+            for fd in received_fds {
+                unsafe { libc::close(fd) };
+            }
+            result
+        }
+    })();
+
+    close_owned(&owned);
+    close_pair();
+    drop(real_listeners);
+
+    let ipv6 = sent.iter().any(|s| s.1.is_ipv6());
+    rep.nontrivial = total >= 50 || ipv6;
+    rep.class_if(total == 0, "empty_set");
+    rep.class_if(total >= 50, "50+_listeners");
+    rep.class_if((190..=200).contains(&total), "190..200_listeners");
+    rep.class_if(total > 200, "over_limit");
+    rep.class_if(manifest_bytes > 4096, "manifest_over_4096_bytes");
+    rep.class_if(ipv6, "ipv6");
+    rep.class_if(!case.send_blocking || !case.recv_blocking, "non_blocking_side");
+    rep.class_if(case.real > 0 && total > 0, "real_bound_sockets");
+    outcome
+}
+
+pub fn run(args: &Args) -> i32 {
+    let mut ev = Evidence::new(args, "exploration");
+    ev.rule(
+        "scm",
+        "listener set = 0..260 entries over http/tls/tcp/udp with IPv4/IPv6 addresses of every textual length (35% of the sets use only the longest IPv6 spellings), descriptors = real bound sockets at their real address (first 0..5 entries) or dups of bound sockets; send_listeners on one end of a UnixStream pair, receive_listeners on the other, blocking and non-blocking. Oracle: within 200 entries both calls succeed and the four lists come out with the same addresses in the same order, each descriptor referring to the same open file (fstat dev/ino) and, for real sockets, bound to the advertised port; above 200 a clean error. Non-trivial: >= 50 listeners or an IPv6 address; distinct by case hash.",
+    );
+    ev.rule(
+        "scm-leak",
+        "same generator, single-threaded, with /proc/self/fd counted before and after: a successful or failed hand-off within the limit leaves no descriptor behind once the harness closed what it owns.",
+    );
+    ev.assume("the master-side orchestration (fork/exec) is not run; the codec and the fd identity are");
+    ev.floor("scm", "190..200_listeners", 0.005);
+    ev.floor("scm", "manifest_over_4096_bytes", 0.05);
+    let cases = args.cases(3_000, 60_000);
+    engine::run_pbt(&mut ev, args, "scm", cases, strategy, check);
+    // leak sub-check: one thread, so the process-wide descriptor count is meaningful
+    let mut single = args.clone();
+    single.jobs = 1;
+    let cases = args.cases(400, 8_000);
+    engine::run_pbt(
+        &mut ev,
+        &single,
+        "scm-leak",
+        cases,
+        || strategy_with(true).prop_map(|mut c| {
+            c.count_fds = true;
+            c
+        }),
+        check,
+    );
+    ev.finish()
 }
